@@ -71,6 +71,7 @@ class DiagramRule(FileRule, BaseModuleSpecifier, RuleApplier):
         return self
 
     def base_module_included_in_module_names(self) -> RuleApplier:
+        self._name_relative_to_root = None
         return self
 
     def assert_applies(self, evaluable: EvaluableArchitecture) -> None:
